@@ -320,6 +320,10 @@ class Hooks:
         """True / False / None (unknown -> fork)."""
         return None
 
+    def obj_truth(self, it: 'Interp', obj: Any):
+        """Truthiness of an abstract object: True / False / None (unknown -> fork) / NotImplemented (use the class's __bool__/__len__)."""
+        return NotImplemented
+
     def compare(self, it: 'Interp', op: str, a: Any, b: Any, node: ast.AST):
         return NotImplemented
 
@@ -514,6 +518,18 @@ class Interp:
             return bool(r)
         if isinstance(v, (Obj, ClassRef, FuncRef, ModRef, Builtin, BoundMethod, ExcVal)):
             if isinstance(v, Obj):
+                r = self.hooks.obj_truth(self, v)
+                if r is not NotImplemented:
+                    # the domain says: True / False, or None = unknown (an opaque value of a class that may define __bool__/__len__,
+                    # e.g. a Michelson value that can be the empty string, False, an empty collection): both ways are explored
+                    k = ('obj-truth', vkey(v))
+                    if k in self.memo:
+                        return self.memo[k]
+                    if r is None:
+                        r = self.choose(2) == 0
+                    self.memo[k] = bool(r)
+                    self.conds.append((App('truthy', v), bool(r)))
+                    return bool(r)
                 m = self.repo.find_method(v.cls, '__bool__') or self.repo.find_method(v.cls, '__len__')
                 if m is not None:
                     r = self.call_function(FuncRef(m, v, True), [], {}, None)
